@@ -30,15 +30,17 @@ def main():
     wt = "/tmp/seedchk/%s" % sid
     shutil.rmtree(wt, ignore_errors=True)
     os.makedirs(wt)
-    sh("git -C /repo archive HEAD | tar -x -C %s" % wt, "/")
+    sh("git -C /repo archive HEAD | tar -x -C %s && find %s -type f -exec touch {} +" % (wt, wt), "/")  # fresh mtimes: cargo must not reuse an artefact built from another copy
     os.makedirs(os.path.join(wt, "tests"), exist_ok=True)
     shutil.copy(demo, os.path.join(wt, "tests", "seed_demo.rs"))
     env = dict(os.environ, CARGO_TARGET_DIR="/tmp/seedchk/target", CARGO_NET_OFFLINE="true")
     res = dict(seed=sid, property=prop)
+    # the demo must pass without the change in both profiles when the author mentions --release, and fail with the
+    # change in at least one of them (a bug may hide in either profile)
     release = os.path.exists(notes) and "--release" in open(notes).read()
-    rel = " --release" if release else ""
-    rc3, out3 = sh("cargo test --offline%s --test seed_demo 2>&1 | tail -5" % rel, wt, env)
-    res["demo_without_change"] = "passes" if "test result: ok" in out3 else "FAILS"
+    profiles = ["", " --release"] if release else [""]
+    outs3 = [sh("cargo test --offline%s --test seed_demo 2>&1 | tail -5" % pr, wt, env)[1] for pr in profiles]
+    res["demo_without_change"] = "passes" if all("test result: ok" in o_ for o_ in outs3) else "FAILS"
     rc0, out0 = sh("git apply --unsafe-paths --directory=%s %s 2>&1 || (cd %s && patch -p1 < %s)" % (wt, patch_file, wt, patch_file), "/")
     rcD, outD = sh("diff -rq /repo/src %s/src" % wt, "/")
     res["patch_applied"] = bool(outD.strip())
@@ -46,8 +48,9 @@ def main():
     rc1b, out1b = sh("cargo test --offline --doc 2>&1 | tail -3", wt, env)
     res["suite_with_change"] = "ok" if ("test result: ok" in out1 and "test result: ok" in out1b) else "FAILED"
     res["suite_tail"] = out1.strip().splitlines()[-1:] + out1b.strip().splitlines()[-1:]
-    rc2, out2 = sh("cargo test --offline%s --test seed_demo 2>&1 | tail -5" % rel, wt, env)
-    res["demo_with_change"] = "fails" if "test result: FAILED" in out2 or "panicked" in out2 else ("passes" if "test result: ok" in out2 else "error")
+    outs2 = [sh("cargo test --offline%s --test seed_demo 2>&1 | tail -5" % pr, wt, env)[1] for pr in profiles]
+    res["demo_with_change"] = "fails" if any("test result: FAILED" in o_ or "panicked" in o_ for o_ in outs2) else ("passes" if all("test result: ok" in o_ for o_ in outs2) else "error")
+    res["demo_profiles"] = {(pr.strip() or "debug"): ("fails" if ("test result: FAILED" in o_ or "panicked" in o_) else "passes") for pr, o_ in zip(profiles, outs2)}
     res["confirmed"] = res["patch_applied"] and res["suite_with_change"] == "ok" and res["demo_with_change"] == "fails" and res["demo_without_change"] == "passes"
     # 4. checks
     env2 = dict(os.environ, VOLUTE_REPO=wt)
@@ -72,7 +75,7 @@ def main():
     if os.path.exists(notes):
         meta["author_notes"] = open(notes).read()
     shutil.rmtree(wt, ignore_errors=True)
-    meta["what_was_run"] = ["cargo test --offline --lib / --doc (with change)", "cargo test --offline%s --test seed_demo (with change, then with src stashed)" % rel,
+    meta["what_was_run"] = ["cargo test --offline --lib / --doc (with change)", "cargo test --offline [--release] --test seed_demo (with and without the change; profiles: %s)" % ", ".join((p_.strip() or "debug") for p_ in profiles),
                             "VOLUTE_REPO=<fresh scratch copy of /repo HEAD with the patch applied> bin/check <each property> --tier quick"]
     with open(os.path.join(d, "meta.json"), "w") as fh:
         json.dump(meta, fh, indent=1)
